@@ -1,5 +1,5 @@
 (* C01 — a change rewrites exactly the code that is an instance of its '-' pattern. *)
-From GP Require Import Tree Meta Match Replace FileEngine ListMatch MatchFacts FileFacts.
+From GP Require Import Tree Meta Match Replace FileEngine ListMatch MatchFacts FileFacts MatchComplete.
 From Coq Require Import Lia.
 
 (* Only instances: whatever the node matcher accepts is an instance of the pattern (Inst,
@@ -55,6 +55,16 @@ Theorem C01_every_instance_wherever :
   descend (rw mk ad minus plus dinit (length pi + S f) v) pi = Some r.
 Proof. exact rw_instance_rewritten. Qed.
 Print Assumptions C01_every_instance_wherever.
+
+(* ... and for LINEAR expression/declaration patterns - no metavariable occurs twice, none is
+   bound by the import clauses - "matches" can be replaced by "is an instance": the matcher
+   accepts every instance (completeness).  For patterns that repeat a metavariable across a
+   nested elision list this is false (known finding F1b, Properties/C04.v). *)
+Theorem C01_linear_patterns_complete : forall mk p s t d,
+  Inst mk s p t -> NoDup (mvs mk p) -> (forall x, In x (mvs mk p) -> assoc x (d_mv d) = None) ->
+  exists d', mtch mk p t d = Some d'.
+Proof. exact mtch_complete_linear. Qed.
+Print Assumptions C01_linear_patterns_complete.
 
 (* A node the pattern does not match is never replaced: it is rebuilt from its own
    (rewritten) children. *)
